@@ -364,12 +364,14 @@ func ResolveRenames(p *Prog, path string) {
 		snapTypes[t.Pkg+"."+t.Name] = t
 	}
 	typeTokens := func(t declType) []string {
+		// names and types are separate tokens, so that a type renamed together with one of
+		// its fields or methods is still recognised by what did not change
 		var out []string
-		for _, f := range t.Fields {
-			out = append(out, "f:"+f.Name+":"+f.Type)
+		for i, f := range t.Fields {
+			out = append(out, "fn:"+f.Name, "ft:"+itoa(i)+":"+f.Type)
 		}
 		for _, m := range t.Methods {
-			out = append(out, "m:"+m.Name+":"+m.Type)
+			out = append(out, "mn:"+m.Name, "mt:"+m.Type)
 		}
 		if t.Under != "" {
 			out = append(out, "u:"+t.Under)
@@ -381,7 +383,7 @@ func ResolveRenames(p *Prog, path string) {
 		var out []string
 		for _, f := range fs {
 			if f.Pkg == pkg && strings.TrimPrefix(f.Recv, "*") == name {
-				out = append(out, "M:"+f.Name)
+				out = append(out, "M:"+f.Name, "Ms:"+f.Sig)
 			}
 		}
 		return out
@@ -425,7 +427,19 @@ func ResolveRenames(p *Prog, path string) {
 				second = sc
 			}
 		}
-		if best >= 0.6 && best-second >= 0.15 {
+		nMissingKind, nNewKind := 0, 0
+		for _, o := range missingTypes {
+			if o.Kind == mt.Kind && o.Pkg == mt.Pkg {
+				nMissingKind++
+			}
+		}
+		for k, ct := range curTypes {
+			if _, existed := snapTypes[k]; !existed && ct.Kind == mt.Kind && ct.Pkg == mt.Pkg {
+				nNewKind++
+			}
+		}
+		forced := nMissingKind == 1 && nNewKind == 1 && best >= 0.3
+		if forced || best >= 0.6 && best-second >= 0.15 {
 			oldToNewType[mt.Name] = bestT.Name
 			usedNew[bestT.Pkg+"."+bestT.Name] = true
 			if sc := pkgScope[bestT.Pkg]; sc != nil {
